@@ -442,9 +442,62 @@ def wire_ok(kind, hdr, value):
     return rx is None or bool(rx.match(hdr))
 
 
+def is_valid_value(kind, v):
+    """does the statement's round-trip clause speak about this (kind, JSON value)?"""
+    t, x = v["t"], v.get("v")
+    try:
+        if kind == "int":
+            return t == "int" and 0 <= x < 10 ** 4300
+        if kind == "str":
+            return t == "str" and "\n" not in x and "\r" not in x
+        if kind == "list":
+            if t == "str":
+                return bool(re.match(r"\A[ \t]*%s(?:[ \t]*,[ \t]*%s)*[ \t]*\Z" % (TOKEN, TOKEN), x))
+            return t in ("list", "tuple") and len(x) > 0 and all(isinstance(e, str) and re.match(r"\A%s\Z" % TOKEN, e) for e in x)
+        if kind == "range":
+            if t == "str":
+                return bool(WIRE["range"].match(x))
+            if t in ("tuple", "list", "range_obj") and len(x) == 2 and isinstance(x[0], int):
+                return (x[0] >= 0 and (x[1] is None or (isinstance(x[1], int) and x[1] > x[0]))) or (x[0] < 0 and x[1] is None)
+            return False
+        if kind == "content_range":
+            if t == "str":
+                m = WIRE["content_range"].match(x)
+                if not m:
+                    return False
+                x = [None, None] if m.group(1) is None else [int(m.group(1)), int(m.group(2)) + 1]
+                x.append(None if m.group(3) is None else int(m.group(3)))
+            if len(x) == 2:
+                x = list(x) + [None]
+            if len(x) != 3:
+                return False
+            a, b, c = x
+            if a is None and b is None:
+                return c is None or c >= 0
+            if a is None or b is None:
+                return False
+            return 0 <= a < b and (c is None or b <= c)
+        if kind in ("date", "date_delta"):
+            if t == "dt":
+                d = dec(v)
+                ts = instant(d)
+                return d.year >= 100 and -62135596800 <= ts <= 253402300799
+            if t == "date":
+                return x[0] >= 100
+            if t == "td":
+                return True
+            if t == "int":
+                return 0 <= x <= 253402300799 if kind == "date" else 0 <= x < 10 ** 9
+    except Exception:  # noqa
+        return False
+    return False
+
+
 def o_rt(case):
     side, attr = case["side"], case["attr"]
     key, kind = table(side)[attr]
+    if case.get("lenient") and not is_valid_value(kind, case["value"]):
+        return None
     value = dec(case["value"])
     init = case.get("init")
     r = mk(side, key, init)
@@ -646,6 +699,8 @@ def date_cases(rng, n, tier_years):
     cases = []
     for i, v in enumerate(vals):
         side, attr = DATE_ATTRS[i % len(DATE_ATTRS)]
+        if v["t"] in ("int", "float", "struct") and attr in ("retry_after", "if_range"):
+            side, attr = "resp", "last_modified"     # a number is delta-seconds / an opaque tag there
         cases.append({"o": "rt", "side": side, "attr": attr, "value": v})
     # delta-seconds and timedelta
     for s in [0, 1, 59, 120, 3600, 86400, 10 ** 6, 2 ** 31 - 1]:
@@ -728,7 +783,8 @@ def cc_header(side, r):
 
 def o_cc(case):
     """one history on Request/Response.cache_control; first failing observation or None.
-    (The request side leaving an EMPTY header instead of removing it is checked by o_cc_empty.)"""
+    `request.cache_control = None` leaving '' is recorded and the history continues, so that it cannot
+    hide another failure in the same history."""
     from webob.cachecontrol import CacheControl
     side = case["side"]
     typ = "response" if side == "resp" else "request"
@@ -736,6 +792,9 @@ def o_cc(case):
     r = mk(side, key, case.get("init"))
     ops = json.loads(json.dumps(case["ops"]))      # webob may keep (and mutate) the dicts handed to it
     held = None
+    deferred = None
+    # the response side removes an emptied header; the request side writes '' through its callback, which
+    # the statement does not speak about (it speaks about None and del)
     gone = (ABSENT,) if side == "resp" else (ABSENT, "")
 
     def denotes(hdr):
@@ -829,14 +888,20 @@ def o_cc(case):
                     v = CacheControl(dict(v["cc"]), typ)
                 r.cache_control = v
                 hdr = cc_header(side, r)
-                if (v is None or v == "" or v == {}) and hdr not in gone:
-                    return ("cc-empty-header:%s" % side if hdr == "" else "none-removes:cache_control:%s" % side,
-                            "%s: cache_control = %r leaves %s: %r" % (where, op[1], key, hdr))
+                if v is None and hdr != ABSENT:
+                    f = ("cc-empty-header:resp" if (hdr == "" and side == "resp") else "none-removes:cache_control:%s" % side,
+                         "%s: cache_control = None leaves %s: %r instead of removing it" % (where, key, hdr))
+                    if side == "req" and hdr == "":
+                        deferred = deferred or f
+                    else:
+                        return f
+                if (v == "" or v == {}) and hdr not in gone:
+                    return ("cc-empty-header:%s" % side, "%s: cache_control = %r leaves %s: %r" % (where, op[1], key, hdr))
             elif t == "del":
                 del r.cache_control
                 hdr = cc_header(side, r)
                 if hdr != ABSENT:
-                    return ("cc-empty-header:%s" % side if hdr == "" else "del-removes:cache_control:%s" % side,
+                    return ("cc-empty-header:resp" if (hdr == "" and side == "resp") else "del-removes:cache_control:%s" % side,
                             "%s: del cache_control leaves %s: %r" % (where, key, hdr))
         except Exception as e:  # noqa
             return ("cc-live:%s:raises-%s" % (side, type(e).__name__), "%s raises %s: %s" % (where, type(e).__name__, str(e)[:100]))
@@ -861,54 +926,7 @@ def o_cc(case):
                 return ("cc-live:%s:object-header-differ" % side, "%s: object shows %r, %s is %r" % (where, view, key, hdr1))
             if s != hdr1 and ref_cc_parse(s) != got:
                 return ("cc-live:%s:str-differs" % side, "%s: str(cache_control)=%r, header %r" % (where, s, hdr1))
-    return None
-
-
-def o_cc_empty(case):
-    """request side only: an emptied Cache-Control is REMOVED from the environ, not left as ''"""
-    from webob.cachecontrol import CacheControl
-    if case["side"] != "req":
-        return None
-    key = "HTTP_CACHE_CONTROL"
-    r = mk("req", key, case.get("init"))
-    ops = json.loads(json.dumps(case["ops"]))
-    for i, op in enumerate(ops):
-        t = op[0]
-        try:
-            if t == "get":
-                r.cache_control
-            elif t in ("setp", "setp_held"):
-                setattr(r.cache_control, op[1], op[2])
-            elif t in ("delp", "delp_held"):
-                delattr(r.cache_control, op[1])
-            elif t == "pset":
-                r.cache_control.properties[op[1]] = op[2]
-            elif t in ("pdel", "ppop"):
-                r.cache_control.properties.pop(op[1], None)
-            elif t == "pclear":
-                r.cache_control.properties.clear()
-            elif t == "pupdate":
-                r.cache_control.properties.update(dict(op[1]))
-            elif t == "psetdefault":
-                r.cache_control.properties.setdefault(op[1], op[2])
-            elif t == "hset":
-                r.environ[key] = op[1]
-                continue
-            elif t == "hdel":
-                r.environ.pop(key, None)
-            elif t == "assign":
-                v = op[1]
-                if isinstance(v, dict) and v.get("cc") is not None:
-                    v = CacheControl(dict(v["cc"]), "request")
-                r.cache_control = v
-            elif t == "del":
-                del r.cache_control
-        except Exception:  # noqa
-            return None        # reported by o_cc
-        if r.environ.get(key, ABSENT) == "":
-            return ("cc-empty-header:req", "step %d %r leaves HTTP_CACHE_CONTROL: '' in the environ instead of removing it"
-                    % (i, case["ops"][i]))
-    return None
+    return deferred
 
 
 CC_VALUES = [5, 0, 3600, True, None, "x", "set-cookie", "a, b", "x y"]
@@ -958,7 +976,7 @@ def rand_cc_op(rng, side):
 # ----------------------------------------------------------------------------------------------
 # dispatch, TZ workers, replay
 # ----------------------------------------------------------------------------------------------
-ORACLES = {"total": o_total, "rt": o_rt, "crlf": o_crlf, "cc": o_cc, "cce": o_cc_empty, "dtext": o_dtext}
+ORACLES = {"total": o_total, "rt": o_rt, "crlf": o_crlf, "cc": o_cc, "dtext": o_dtext}
 
 
 def run_case(case):
@@ -1101,27 +1119,748 @@ def oracle_sweep(ctx):
                 for ops in itertools.product(uni, repeat=k):
                     case = {"o": "cc", "side": side, "init": init, "ops": json.loads(json.dumps(ops))}
                     report(ctx, o_cc(case), case, "cache-control")
-                    if side == "req":
-                        report(ctx, o_cc_empty(case), dict(case, o="cce"), "cache-control")
+                    cnt += 1
+        # the header is set back to a text the object was parsed from earlier, after the object changed
+        muts = [["setp", "max_age", 9], ["setp", "no_cache", True], ["delp", "max_age"], ["pset", "ext", "q"], ["pclear"],
+                ["setp", "no_store", True], ["ppop", "max-age"], ["assign", {"max-age": 3}, {"max-age": "3"}]]
+        for text, wf in CC_TEXTS:
+            for mu in muts:
+                for pre in ([], [["get"]]):
+                    case = {"o": "cc", "side": side, "init": None,
+                            "ops": json.loads(json.dumps(pre + [["hset", text, wf], mu, ["hset", text, wf]]))}
+                    report(ctx, o_cc(case), case, "cache-control")
                     cnt += 1
         for _ in range(m):
             case = {"o": "cc", "side": side, "init": r2.choice([None, "max-age=1", "no-cache, x=1", "garbage 1 2"]),
                     "ops": json.loads(json.dumps([rand_cc_op(r2, side) for _ in range(r2.randrange(1, 12))]))}
             report(ctx, o_cc(case), case, "cache-control")
-            if side == "req":
-                report(ctx, o_cc_empty(case), dict(case, o="cce"), "cache-control")
             cnt += 1
         ctx.oracle_count("cache-control", cnt, cnt)
 
 
+# ----------------------------------------------------------------------------------------------
+# correspondence: Gallina models vs the real functions / attributes
+# ----------------------------------------------------------------------------------------------
+IMPORTS = ["Webob.Lib.PyStr", "Webob.Lib.C12_PyInt", "Webob.Lib.C12_Civil", "Webob.Model.C12_Headers",
+           "Webob.Model.C12_ByteRange", "Webob.Model.C12_Dates", "Webob.Model.C12_CacheControl", "Webob.Model.C12_Attrs"]
+CFG = {"anch": False, "zn": False}
+
+
+def source_cfg(ctx):
+    """which of the known variants of Range.parse this tree has (fail-closed on anything else)"""
+    import inspect
+    from webob import byterange
+    base = r"bytes *= *(\d*) *- *(\d*)"
+    pat, flags = byterange._rx_range.pattern, byterange._rx_range.flags
+    if pat == base:
+        CFG["anch"] = False
+    elif pat == base + " *$":
+        CFG["anch"] = True
+    else:
+        ctx.broken.append("byterange._rx_range is %r: not a form the Range scanner model knows" % pat)
+    if not (flags & re.I) or (flags & (re.M | re.S | re.X | re.A)):
+        ctx.broken.append("byterange._rx_range flags changed: %r" % flags)
+    crp = byterange._rx_content_range
+    if crp.pattern != r"bytes (?:(\d+)-(\d+)|[*])/(?:(\d+)|[*])" or (crp.flags & (re.I | re.M | re.S | re.X | re.A)):
+        ctx.broken.append("byterange._rx_content_range is %r: not the form the scanner model knows" % crp.pattern)
+    src = inspect.getsource(byterange.Range.parse)
+    CFG["zn"] = "not int(end)" in src
+    ctx.note("source variant: _rx_range anchored=%s, bytes=-0 unparsable=%s" % (CFG["anch"], CFG["zn"]))
+
+
+def cfields(f):
+    return "(%s)" % ", ".join(cz(x) for x in f)
+
+
+def ccfg():
+    now = DT(*FIXED_NOW)
+    now_utc = int(time.mktime(now.timetuple()))
+    return "(mkCfg %s %s %s %s)" % (cbool(CFG["anch"]), cbool(CFG["zn"]), cfields(FIXED_NOW), cz(now_utc))
+
+
+def ascii_digits_only(t):
+    """the scanner models read \\d as [0-9]: keep other decimal digits out of correspondence inputs"""
+    return not any(c.isdecimal() and ord(c) > 127 for c in t) and not any(ord(c) > 255 and c.isspace() for c in t)
+
+
+
+def latin1(t):
+    return all(ord(c) < 256 for c in t)
+
+
+BIG = 10 ** 30
+
+
+def nbytes(n):
+    n = abs(n)
+    return n.to_bytes((n.bit_length() + 7) // 8, "big")
+
+
+def cz(n):
+    """Coq term of type Z; big integers as octet strings (Coq parses long decimal literals very slowly)"""
+    if abs(n) < BIG:
+        return cZ(n)
+    return "(Zb %s %s)" % (cbool(n < 0), cstr(nbytes(n)))
+
+
+def bigfix(v):
+    """expected-output form of integers beyond 10^30 (mirrors Lib/C12_PyInt.vint)"""
+    if isinstance(v, bool) or v is None or isinstance(v, (str, bytes, Err)):
+        return v
+    if isinstance(v, int):
+        return v if abs(v) < BIG else ["big", v < 0, nbytes(v)]
+    if isinstance(v, (list, tuple)):
+        return [bigfix(x) for x in v]
+    return v
+
+
+def cpyv(v):
+    """Coq term of type pyv for a JSON-encoded Python value"""
+    t, x = v["t"], v.get("v")
+    if t == "none":
+        return "PNone"
+    if t == "int":
+        return "(PInt %s)" % cz(x)
+    if t == "str":
+        return "(PStr %s)" % cstr(x)
+    if t in ("list", "tuple"):
+        if all(isinstance(e, str) for e in x):
+            return "(PStrs %s)" % clist(cstr(e) for e in x)
+        return "(PInts %s)" % clist(copt(None if e is None else cz(e)) for e in x)
+    if t == "range_obj":
+        return "(PRange %s %s)" % (cz(x[0]), copt(None if x[1] is None else cz(x[1])))
+    if t == "cr_obj":
+        return "(PCRange %s %s %s)" % tuple(copt(None if e is None else cz(e)) for e in x)
+    if t == "dt":
+        return "(PDateTime %s %s)" % (" ".join(cz(e) for e in x[:6]), copt(None if v.get("tz") is None else cz(v["tz"])))
+    if t == "date":
+        return "(PDate %s)" % " ".join(cz(e) for e in x)
+    if t == "td":
+        return "(PDelta %s)" % cz(x)
+    if t == "auth":
+        if isinstance(x[1], str):
+            return "(PAuthS %s %s)" % (cstr(x[0]), cstr(x[1]))
+        return "(PAuth %s %s)" % (cstr(x[0]), clist(cpair(cstr(k), cstr(w)) for k, w in dict(x[1]).items()))
+    if t == "etag_pair":
+        return "(PEtag %s %s)" % (cstr(x[0]), cbool(x[1]))
+    raise ValueError(v)
+
+
+def cop(prefix, o):
+    t = o[0]
+    if t == "get":
+        return "(HGet %s_%s)" % (prefix, o[1])
+    if t == "set":
+        return "(HSet %s_%s %s)" % (prefix, o[1], cpyv(o[2]))
+    if t == "del":
+        return "(HDel %s_%s)" % (prefix, o[1])
+    if t == "raw":
+        return "(HRaw %s %s)" % (cstr(o[1]), cstr(o[2]))
+    if t == "rawdel":
+        return "(HRawDel %s)" % cstr(o[1])
+    raise ValueError(o)
+
+
+def canon(v):
+    """observation of a value read from a typed attribute"""
+    from webob.byterange import Range, ContentRange
+    if v is None or isinstance(v, (int, str, Err)):
+        return v
+    if isinstance(v, DT):
+        return ["dt", v.year, v.month, v.day, v.hour, v.minute, v.second,
+                None if v.tzinfo is None else int(v.utcoffset().total_seconds())]
+    if isinstance(v, Range):
+        return ["range", v.start, v.end]
+    if isinstance(v, ContentRange):
+        return ["crange", v.start, v.stop, v.length]
+    if isinstance(v, tuple) and hasattr(v, "authtype"):
+        p = v.params
+        return ["auth", v.authtype, p if isinstance(p, str) else [[k, w] for k, w in p.items()]]
+    if isinstance(v, dict):
+        return [[k, w] for k, w in v.items()]
+    if isinstance(v, (tuple, list)):
+        return [canon(x) for x in v]
+    return repr(v)
+
+
+WATCH = sorted({k for k, _ in REQ.values()})
+
+
+def run_history(side, init, ops):
+    """the real object driven through a history; per step [result, store]"""
+    Request, Response = webob()
+    out = []
+    with NowHook():
+        if side == "resp":
+            r = Response()
+            r.headerlist = [tuple(p) for p in init]
+        else:
+            r = Request.blank("/")
+            for k in WATCH:
+                r.environ.pop(k, None)
+            for k, v in init:
+                r.environ[k] = v
+        for o in ops:
+            t = o[0]
+            if t == "get":
+                res = bigfix(canon(catch(getattr, r, o[1])))
+            elif t == "set":
+                res = catch(setattr, r, o[1], dec(o[2]))
+            elif t == "del":
+                res = catch(delattr, r, o[1])
+            elif t == "raw":
+                res = None
+                if side == "resp":
+                    r.headerlist.append((o[1], o[2]))
+                else:
+                    r.environ[o[1]] = o[2]
+            elif t == "rawdel":
+                res = None
+                if side == "resp":
+                    r.headerlist[:] = [(k, v) for k, v in r.headerlist if k.lower() != o[1].lower()]
+                else:
+                    r.environ.pop(o[1], None)
+            if side == "resp":
+                store = [list(kv) for kv in r.headerlist]
+            else:
+                store = [r.environ.get(k) for k in WATCH]
+            out.append([res, store])
+    return out
+
+
+def case_variants(rng, name):
+    c = rng.random()
+    return name if c < 0.6 else (name.lower() if c < 0.8 else name.upper())
+
+
+def gen_history(rng, side, attrs, maxlen):
+    """random history over the given attributes: raw adversarial texts, valid and invalid assignments"""
+    tab = table(side)
+    init = []
+    ops = []
+    for _ in range(rng.randrange(1, maxlen + 1)):
+        attr = rng.choice(attrs)
+        key, kind = tab[attr]
+        c = rng.random()
+        if c < 0.3:
+            texts = GEN_TEXTS[kind]
+            t = rng.choice(texts)
+            k = case_variants(rng, key) if side == "resp" else key
+            ops.append(["raw", k, t])
+            ops.append(["get", attr])
+        elif c < 0.6:
+            vals = GEN_VALUES[kind]
+            ops.append(["set", attr, rng.choice(vals)])
+            ops.append(["get", attr])
+        elif c < 0.7:
+            if not (side == "req" and attr == "server_port"):      # environ["SERVER_PORT"] = None: outside the model
+                ops.append(["set", attr, {"t": "none"}])
+        elif c < 0.8:
+            if not (side == "req" and attr == "server_port" and rng.random() < 0.8):
+                ops.append(["del", attr])
+        elif c < 0.9:
+            ops.append(["get", attr])
+        else:
+            ops.append(["rawdel", key])
+    return init, ops
+
+
+GEN_TEXTS = {}
+GEN_VALUES = {}
+
+
+def prepare_generators(ctx):
+    rng = ctx.sub_rng("gen")
+    for kind in ("int", "list", "str", "range", "content_range", "date", "date_delta", "auth", "etag", "if_range"):
+        texts = [t for t in total_texts(kind, 2, rng, ctx.scale(300, 3000)) if latin1(t) and len(t) < 200]
+        GEN_TEXTS[kind] = texts
+    for kind in ("range", "content_range"):
+        GEN_TEXTS[kind] += [t for t in SPECIAL[kind] if ascii_digits_only(t) and len(t) < 9000]
+    GEN_VALUES["range"] = ([{"t": "tuple", "v": [a, b]} for a in (0, 1, 5, 10 ** 40) for b in (None, 0, 1, 6, 7, -1, 10 ** 40 + 5)]
+                           + [{"t": "tuple", "v": [-5, None]}, {"t": "list", "v": [2, 9]}, {"t": "tuple", "v": [1, 2, 3]},
+                              {"t": "tuple", "v": [4]}, {"t": "tuple", "v": []}, {"t": "tuple", "v": [-3, 4]}]
+                           + [{"t": "range_obj", "v": v} for v in ([0, None], [0, 5], [-7, None], [3, 4], [10 ** 35, None])]
+                           + [{"t": "str", "v": v} for v in ["bytes=0-4", "bytes=-5", "junk", "", "bytes=1-\n"]])
+    GEN_VALUES["content_range"] = ([{"t": "tuple", "v": [a, b, c]} for a in (None, 0, 2) for b in (None, 0, 3, 9) for c in (None, 0, 5, 9, -1)]
+                                   + [{"t": "tuple", "v": [0, 5]}, {"t": "list", "v": [2, 1]}, {"t": "tuple", "v": [1]},
+                                      {"t": "list", "v": [1, 2, 3, 4]}, {"t": "tuple", "v": [10 ** 40, 10 ** 40 + 1, None]}]
+                                   + [{"t": "cr_obj", "v": v} for v in ([0, 5, 10], [None, None, 7], [None, None, None], [3, 4, None], [0, 50, 10])]
+                                   + [{"t": "str", "v": v} for v in ["bytes 0-4/10", "  bytes */5 ", " ", "", "junk", "a\nb"]])
+    crlf = [{"t": "str", "v": v} for v in ["a\nb", "x\r", "\r\n", "1\n"]]
+    GEN_VALUES["int"] = ([{"t": "int", "v": v} for v in [0, 1, 7, 10, 99, 255, 4096, 2 ** 31, 10 ** 30, -1, -20, 10 ** 60 + 7]]
+                         + [{"t": "int", "v": rng.randrange(10 ** rng.randrange(1, 25))} for _ in range(30)]
+                         + [{"t": "str", "v": v} for v in ["12", "abc", ""]] + crlf)
+    toks = ["GET", "POST", "a", "x-y", "Accept-Encoding", "*", "en"]
+    GEN_VALUES["list"] = ([{"t": "list", "v": [rng.choice(toks) for _ in range(rng.randrange(1, 4))]} for _ in range(30)]
+                          + [{"t": "tuple", "v": ["GET", "HEAD"]}, {"t": "list", "v": []}, {"t": "list", "v": ["a\nb"]}]
+                          + [{"t": "str", "v": v} for v in ["GET, POST", "a,b", " a ,, b ", ""]] + crlf)
+    GEN_VALUES["str"] = [{"t": "str", "v": v} for v in ["a", "gzip", "a b, c", "\xe9", "", " x "]] + crlf
+
+
+def disagreement(ctx, name, case, checks):
+    """a model/implementation disagreement: a property failure on the implementation if any derived
+    oracle case fails, otherwise a broken tie"""
+    for c in checks:
+        try:
+            res = run_case(c)
+        except Exception:  # noqa
+            res = None
+        if res:
+            ctx.fail(res[0], res[1], c, True, "corr")
+            return
+    ctx.broken.append("correspondence %s: model and implementation disagree on %s" % (name, json.dumps(case)[:600]))
+
+
+def derived_checks(side, ops):
+    """oracle cases that speak about the same inputs as a history"""
+    tab = table(side)
+    out = []
+    last_raw = {}
+    for o in ops:
+        if o[0] == "raw":
+            for attr, (key, kind) in tab.items():
+                if key.lower() == o[1].lower():
+                    out.append({"o": "total", "side": side, "attr": attr, "text": o[2]})
+        elif o[0] == "set" and o[2]["t"] != "none":
+            key, kind = tab[o[1]]
+            v = o[2]
+            if v["t"] == "str" and ("\n" in v["v"] or "\r" in v["v"]):
+                if side == "resp":
+                    out.append({"o": "crlf", "attr": o[1], "value": v["v"], "init": None})
+            else:
+                out.append({"o": "rt", "side": side, "attr": o[1], "value": v, "init": None, "lenient": True})
+    return out
+
+
+def corr_group1(ctx):
+    rng = ctx.sub_rng("corr1")
+    # int() and str()
+    texts = [t for t in total_texts("int", 3, rng, ctx.scale(400, 6000)) if latin1(t)]
+    texts = texts[: ctx.scale(1500, 20000)]
+    texts = [t for t in texts if len(t) < 9000]
+    cases = [(cstr(t), bigfix(catch(int, t)), {"fn": "int", "text": t}) for t in texts]
+    bad = ctx.corr("py_int", IMPORTS, "(fun s => match py_int s with Some z => vint z | None => VErr ValueError end)", cases,
+                   in_type="str")
+    for i in bad[:5]:
+        ctx.broken.append("correspondence py_int: model and CPython disagree on int(%r)" % cases[i][2]["text"][:80])
+    # (N.div is quadratic: a 4300-digit str_of_Z takes minutes in Coq, so printing is compared up to 10^300 only;
+    #  reading is compared up to and beyond the 4300-digit limit by the py_int correspondence)
+    nums = [0, 1, -1, 9, 10, 11, 99, 100, 101, 2 ** 31, -2 ** 63, 10 ** 20, 10 ** 300 + 1, -(10 ** 299)]
+    nums += [rng.randrange(-10 ** 30, 10 ** 30) for _ in range(ctx.scale(300, 3000))]
+    nums += list(range(-30, 130))
+    sys.set_int_max_str_digits(max(sys.get_int_max_str_digits(), 4300))
+    cases = [(cz(n), str(n), {"fn": "str", "n": str(n)}) for n in nums]
+    bad = ctx.corr("str_of_int", IMPORTS, "(fun z => VStr (str_of_Z z))", cases, in_type="Z")
+    for i in bad[:5]:
+        ctx.broken.append("correspondence str_of_int: model and CPython disagree on str(%r)" % cases[i][2]["n"])
+    # attribute histories
+    n = ctx.scale(400, 5000)
+    rattrs = [a for a, (k, kind) in RESP.items() if kind in ("int", "list", "str")]
+    qattrs = [a for a, (k, kind) in REQ.items() if kind in ("int", "str")]
+    cases = []
+    for _ in range(n):
+        init, ops = gen_history(rng, "resp", rattrs, 6)
+        out = run_history("resp", init, ops)
+        cases.append((cpair("(@nil (str * str))", clist(cop("R", o) for o in ops)), out, {"side": "resp", "ops": ops}))
+    bad = ctx.corr("resp-attrs-1", IMPORTS, "(fun c => run_resp %s (fst c) (snd c))" % ccfg(), cases,
+                   in_type="(pairs * list (hop rattr))")
+    for i in bad[:5]:
+        disagreement(ctx, "resp-attrs-1", cases[i][2], derived_checks("resp", cases[i][2]["ops"]))
+    cases = []
+    watch = clist(cstr(k) for k in WATCH)
+    for _ in range(n):
+        init, ops = gen_history(rng, "req", qattrs, 6)
+        if not any(o[0] == "rawdel" and o[1] == "SERVER_PORT" for o in ops):
+            init = [("SERVER_PORT", "80")]
+        out = run_history("req", init, ops)
+        cases.append((cpair(clist(cpair(cstr(k), cstr(v)) for k, v in init), clist(cop("Q", o) for o in ops)), out,
+                      {"side": "req", "ops": ops, "init": init}))
+    bad = ctx.corr("req-attrs-1", IMPORTS, "(fun c => run_req %s %s (fst c) (snd c))" % (ccfg(), watch), cases,
+                   in_type="(pairs * list (hop qattr))")
+    for i in bad[:5]:
+        disagreement(ctx, "req-attrs-1", cases[i][2], derived_checks("req", cases[i][2]["ops"]))
+
+
+def corr_group2(ctx):
+    """Range / Content-Range: the two regex scanners, the two parsers, the validity predicate"""
+    from webob import byterange
+    rng = ctx.sub_rng("corr2")
+    anch, zn = cbool(CFG["anch"]), cbool(CFG["zn"])
+
+    def groups(rx, t):
+        m = rx.match(t)
+        return None if m is None else list(m.groups())
+
+    for kind, rx, fn, parse, pfn in (
+            ("range", byterange._rx_range,
+             "(fun s => match rx_range %s s with None => VNone | Some (a, b) => VList [VStr a; VStr b] end)" % anch,
+             byterange.Range.parse,
+             "(fun s => match range_parse %s %s s with Ok r => bigv (range_val r) | Raise e => VErr e end)" % (anch, zn)),
+            ("content_range", byterange._rx_content_range,
+             "(fun s => match rx_content_range s with None => VNone | Some (a, b, c) => VList [oval a; oval b; oval c] end)",
+             byterange.ContentRange.parse,
+             "(fun s => match crange_parse s with Ok r => bigv (crange_val r) | Raise e => VErr e end)")):
+        texts = [t for t in total_texts(kind, 4, rng, ctx.scale(600, 8000)) if ascii_digits_only(t) and len(t) < 9000]
+        rng.shuffle(texts)
+        head = [t for t in SPECIAL[kind] if ascii_digits_only(t) and len(t) < 9000]
+        texts = head + texts[: ctx.scale(1500, 30000)]
+        cases = [(cstr(t), groups(rx, t), {"fn": "rx_" + kind, "text": t}) for t in texts]
+        bad = ctx.corr("rx_" + kind, IMPORTS, fn, cases, in_type="str")
+        for i in bad[:5]:
+            ctx.broken.append("correspondence rx_%s: scanner model and re disagree on %r" % (kind, cases[i][2]["text"][:100]))
+        cases = [(cstr(t), bigfix(canon(catch(parse, t))), {"fn": kind + ".parse", "text": t}) for t in texts]
+        bad = ctx.corr(kind + "_parse", IMPORTS, pfn, cases, in_type="str")
+        attr = ("req", "range") if kind == "range" else ("resp", "content_range")
+        for i in bad[:5]:
+            disagreement(ctx, kind + "_parse", cases[i][2],
+                         [{"o": "total", "side": attr[0], "attr": attr[1], "text": cases[i][2]["text"]}])
+    dom = [None, -1, 0, 1, 2, 3]
+    cases = []
+    for a in dom:
+        for b in dom:
+            for c in dom:
+                for resp in (False, True):
+                    cases.append(("(%s, %s, %s, %s)" % (copt(None if a is None else cZ(a)), copt(None if b is None else cZ(b)),
+                                                         copt(None if c is None else cZ(c)), cbool(resp)),
+                                  bool(byterange._is_content_range_valid(a, b, c, response=resp)),
+                                  {"fn": "_is_content_range_valid", "args": [a, b, c, resp]}))
+    bad = ctx.corr("cr_valid", IMPORTS, "(fun x => match x with (a, b, c, r) => VBool (cr_valid a b c r) end)", cases,
+                   in_type="(option Z * option Z * option Z * bool)")
+    for i in bad[:5]:
+        ctx.broken.append("correspondence cr_valid: model and _is_content_range_valid disagree on %r" % (cases[i][2]["args"],))
+    # attribute level, mixed with the group-1 attributes
+    n = ctx.scale(300, 4000)
+    cases = []
+    for _ in range(n):
+        init, ops = gen_history(rng, "resp", ["content_range", "content_range", "content_length", "allow"], 6)
+        out = run_history("resp", init, ops)
+        cases.append((cpair("(@nil (str * str))", clist(cop("R", o) for o in ops)), out, {"side": "resp", "ops": ops}))
+    bad = ctx.corr("resp-attrs-2", IMPORTS, "(fun c => run_resp %s (fst c) (snd c))" % ccfg(), cases,
+                   in_type="(pairs * list (hop rattr))")
+    for i in bad[:5]:
+        disagreement(ctx, "resp-attrs-2", cases[i][2], derived_checks("resp", cases[i][2]["ops"]))
+    cases = []
+    watch = clist(cstr(k) for k in WATCH)
+    for _ in range(n):
+        init, ops = gen_history(rng, "req", ["range", "range", "max_forwards", "referer"], 6)
+        out = run_history("req", init, ops)
+        cases.append((cpair("(@nil (str * str))", clist(cop("Q", o) for o in ops)), out, {"side": "req", "ops": ops, "init": []}))
+    bad = ctx.corr("req-attrs-2", IMPORTS, "(fun c => run_req %s %s (fst c) (snd c))" % (ccfg(), watch), cases,
+                   in_type="(pairs * list (hop qattr))")
+    for i in bad[:5]:
+        disagreement(ctx, "req-attrs-2", cases[i][2], derived_checks("req", cases[i][2]["ops"]))
+
+
+def canonical_shaped(rng):
+    """a text of the exact IMF-fixdate shape; fields mostly in range, sometimes not"""
+    c = rng.random()
+    if c < 0.6:
+        ts = rng.randrange(-62135596800, 253402300800)
+        return http_date(ts) if ts >= -62135596800 else http_date(0)
+    wd = rng.choice(WD)
+    mon = rng.choice(MON)
+    two = lambda hi: "%02d" % rng.choice([0, 1, hi - 1, hi, 99, rng.randrange(100)])  # noqa
+    year = "%04d" % rng.choice([0, 1, 68, 69, 99, 100, 999, 1000, 1969, 1970, 2024, 9999, rng.randrange(10000)])
+    return "%s, %s %s %s %s:%s:%s GMT" % (wd, two(31), mon, year, two(24), two(60), two(60))
+
+
+def corr_group3(ctx):
+    """dates: timegm, fromtimestamp/formatdate, parsedate_tz on the canonical shape, attribute histories"""
+    import calendar
+    from email.utils import formatdate, parsedate_tz
+    rng = ctx.sub_rng("corr3")
+    n = ctx.scale(600, 8000)
+    # calendar.timegm
+    cases = []
+    for _ in range(n):
+        if rng.random() < 0.7:
+            f = [rng.choice([1, 4, 100, 1600, 1900, 1970, 2000, 2024, 9999, rng.randrange(1, 10000)]), rng.randrange(1, 13),
+                 rng.randrange(1, 32), rng.randrange(24), rng.randrange(60), rng.randrange(60)]
+        else:
+            f = [rng.choice([0, -1, 10000, 99999, 2020]), rng.choice([0, 1, 12, 13, 6]), rng.choice([0, 31, 99, -5]),
+                 rng.choice([0, 99, -1]), rng.choice([0, 99]), rng.choice([0, 99, 61])]
+        cases.append((cfields(f), catch(calendar.timegm, tuple(f) + (0, 1, -1)), {"fn": "timegm", "fields": f}))
+    bad = ctx.corr("timegm", IMPORTS, "(fun f => match timegm f with Ok t => VInt t | Raise e => VErr e end)", cases, in_type="fields")
+    for i in bad[:5]:
+        ctx.broken.append("correspondence timegm: model and calendar.timegm disagree on %r" % (cases[i][2]["fields"],))
+    # formatdate(ts, usegmt=True)  (= fromtimestamp + weekday + formatting)
+    cases = []
+    tss = [0, -1, 1, 86399, 86400, -62135596800, 253402300799, 951782400, 951868800, 4102444800, -2208988800,
+           253402300800, -62135596801]
+    tss += [rng.randrange(-62135596800, 253402300800) for _ in range(n)]
+    tss += [(DT(y, 1, 1) - EPOCH) // TD(seconds=1) - k for y in range(1, 10000, ctx.scale(97, 7)) for k in (0, 1)]
+    for ts in tss:
+        cases.append((cz(ts), catch(formatdate, ts, usegmt=True), {"fn": "formatdate", "ts": ts}))
+    bad = ctx.corr("formatdate", IMPORTS, "(fun t => match format_date t with Ok s => VStr s | Raise e => VErr e end)", cases, in_type="Z")
+    for i in bad[:5]:
+        ctx.broken.append("correspondence formatdate: model and email.utils.formatdate disagree on %r" % cases[i][2]["ts"])
+    # parsedate_tz on canonical-shaped text
+    cases = []
+    for _ in range(n):
+        t = canonical_shaped(rng)
+        r = parsedate_tz(t)
+        cases.append((cstr(t), None if r is None else [list(r[:6]), r[9]], {"fn": "parsedate_tz", "text": t}))
+    bad = ctx.corr("parsedate_tz-canonical", IMPORTS,
+                   "(fun s => match parse_imf s with None => VNone | Some ((y, m, d, h, mi, ss), tz) => "
+                   "VList [VList [VInt y; VInt m; VInt d; VInt h; VInt mi; VInt ss]; oz tz] end)", cases, in_type="str")
+    for i in bad[:5]:
+        ctx.broken.append("correspondence parsedate_tz: model and email.utils.parsedate_tz disagree on %r" % cases[i][2]["text"])
+    # attribute histories: date attributes of both sides
+    GEN_TEXTS["date"] = [canonical_shaped(rng) for _ in range(400)] + ["", "abc", "GMT"]
+    GEN_TEXTS["date_delta"] = GEN_TEXTS["date"] + ["0", "120", "-5", " 7 ", "1_0", "99999999999999999999", "-99999999999999999999",
+                                                   "86399999999999", "86400000000000", "253370764800", "253370800000", "-63000000000",
+                                                   "9" * 4301, "+3"]
+    vals = [v for v in date_values(rng, 300, [1970, 2000, 9999]) if v["t"] in ("dt", "date", "int")]
+    vals += [{"t": "td", "v": x} for x in (0, 1, -1, 3600, 86400 * 365, -86400)]
+    vals += [{"t": "str", "v": x} for x in ("Mon, 01 Jan 2001 00:00:00 GMT", "tomorrow", "a\nb", "")]
+    vals += [enc_dt(DT(1, 1, 1)), enc_dt(DT(9999, 12, 31, 23, 59, 59)), {"t": "int", "v": 253402300800}, {"t": "int", "v": -62135596801}]
+    GEN_VALUES["date"] = vals
+    GEN_VALUES["date_delta"] = [v for v in vals if v["t"] != "int"] + [{"t": "int", "v": x} for x in (0, 5, 120, 10 ** 12, -7)]
+    m = ctx.scale(300, 4000)
+    cases = []
+    for _ in range(m):
+        init, ops = gen_history(rng, "resp", ["date", "expires", "last_modified", "retry_after", "retry_after", "age"], 6)
+        out = run_history("resp", init, ops)
+        cases.append((cpair("(@nil (str * str))", clist(cop("R", o) for o in ops)), out, {"side": "resp", "ops": ops}))
+    bad = ctx.corr("resp-attrs-3", IMPORTS, "(fun c => run_resp %s (fst c) (snd c))" % ccfg(), cases,
+                   in_type="(pairs * list (hop rattr))")
+    for i in bad[:5]:
+        disagreement(ctx, "resp-attrs-3", cases[i][2], derived_checks("resp", cases[i][2]["ops"]))
+    cases = []
+    watch = clist(cstr(k) for k in WATCH)
+    for _ in range(m):
+        init, ops = gen_history(rng, "req", ["date", "if_modified_since", "if_unmodified_since", "range"], 6)
+        out = run_history("req", init, ops)
+        cases.append((cpair("(@nil (str * str))", clist(cop("Q", o) for o in ops)), out, {"side": "req", "ops": ops, "init": []}))
+    bad = ctx.corr("req-attrs-3", IMPORTS, "(fun c => run_req %s %s (fst c) (snd c))" % (ccfg(), watch), cases,
+                   in_type="(pairs * list (hop qattr))")
+    for i in bad[:5]:
+        disagreement(ctx, "req-attrs-3", cases[i][2], derived_checks("req", cases[i][2]["ops"]))
+
+
+# ---- Cache-Control
+def ccval(v):
+    if v is None:
+        return "CNone"
+    if isinstance(v, bool):
+        return "(CStr %s)" % cstr(str(v))
+    if isinstance(v, int):
+        return "(CInt %s)" % cz(v)
+    return "(CStr %s)" % cstr(v)
+
+
+def cprops(d):
+    return clist(cpair(cstr(k), ccval(v)) for k, v in d.items())
+
+
+def cdval(v):
+    if v is None:
+        return "DNone"
+    if v is True:
+        return "DTrue"
+    if v is False:
+        return "DFalse"
+    if isinstance(v, int):
+        return "(DInt %s)" % cz(v)
+    return "(DStr %s)" % cstr(v)
+
+
+def cccv(v):
+    if v is None:
+        return "ANone"
+    if isinstance(v, str):
+        return "(AText %s)" % cstr(v)
+    if "cc" in v and isinstance(v.get("cc"), dict):
+        return "(ADict %s)" % cprops(v["cc"])
+    return "(ADict %s)" % cprops(v)
+
+
+def ccop(side, o):
+    t = o[0]
+    q = side == "req"
+    if t == "get":
+        return "QGet" if q else "CGet"
+    if t in ("setp", "setp_held"):
+        return ("(QSetAttr %s A_%s %s)" % (cbool(t.endswith("held")), o[1], cdval(o[2]))) if q else "(CSetAttr A_%s %s)" % (o[1], cdval(o[2]))
+    if t in ("delp", "delp_held"):
+        return ("(QDelAttr %s A_%s)" % (cbool(t.endswith("held")), o[1])) if q else "(CDelAttr A_%s)" % o[1]
+    if t == "pset":
+        return "(%s %s %s)" % ("QPSet" if q else "CPSet", cstr(o[1]), ccval(o[2]))
+    if t == "ppop":
+        return "(CPDel %s)" % cstr(o[1])
+    if t == "pclear":
+        return "QPClear" if q else "CPClear"
+    if t == "hset":
+        return "(%s %s)" % ("QHeader" if q else "CHeader", cstr(o[1]))
+    if t == "hdel":
+        return "QHeaderDel" if q else "CHeaderDel"
+    if t == "assign":
+        return "(%s %s)" % ("QAssign" if q else "CAssign", cccv(o[1]))
+    if t == "del":
+        return "QDelete" if q else "CDelete"
+    raise ValueError(o)
+
+
+def run_cc_history(side, init, ops):
+    """the real attribute driven through a history; per step [exception, header before the read,
+    properties shown by the accessor, (str(cc),) header after the read]"""
+    from webob.cachecontrol import CacheControl
+    Request, Response = webob()
+    ops = json.loads(json.dumps(ops))
+    key = "HTTP_CACHE_CONTROL"
+    if side == "resp":
+        r = Response()
+        r.headerlist = [] if init is None else [("Cache-Control", init)]
+    else:
+        r = Request.blank("/")
+        if init is not None:
+            r.environ[key] = init
+    held = None
+    out = []
+
+    def store():
+        if side == "resp":
+            return [list(kv) for kv in r.headerlist]
+        return r.environ.get(key)
+
+    for o in ops:
+        t = o[0]
+        exc = None
+        try:
+            if t == "get":
+                held = r.cache_control
+            elif t in ("setp", "setp_held"):
+                cc = held if (t.endswith("held") and held is not None) else r.cache_control
+                setattr(cc, o[1], o[2])
+            elif t in ("delp", "delp_held"):
+                cc = held if (t.endswith("held") and held is not None) else r.cache_control
+                delattr(cc, o[1])
+            elif t == "pset":
+                r.cache_control.properties[o[1]] = o[2]
+            elif t == "ppop":
+                r.cache_control.properties.pop(o[1], None)
+            elif t == "pclear":
+                r.cache_control.properties.clear()
+            elif t == "hset":
+                if side == "resp":
+                    r.headers["Cache-Control"] = o[1]
+                else:
+                    r.environ[key] = o[1]
+            elif t == "hdel":
+                if side == "resp":
+                    r.headers.pop("Cache-Control", None)
+                else:
+                    r.environ.pop(key, None)
+            elif t == "assign":
+                v = o[1]
+                if isinstance(v, dict) and isinstance(v.get("cc"), dict):
+                    v = CacheControl(dict(v["cc"]), "response" if side == "resp" else "request")
+                r.cache_control = v
+            elif t == "del":
+                del r.cache_control
+        except Exception as e:  # noqa
+            exc = Err(type(e).__name__)
+        before = store()
+        cc = r.cache_control
+        props = [[k, bigfix(v)] for k, v in cc.properties.items()]
+        if side == "resp":
+            out.append([exc, before, props, str(cc), store()])
+        else:
+            out.append([exc, before, props, store()])
+    return out
+
+
+def cc_corr_op(rng, side):
+    """ops of the oracle's language that the Coq machines model"""
+    while True:
+        o = rand_cc_op(rng, side)
+        t = o[0]
+        if t in ("pdel", "pupdate", "psetdefault"):
+            continue
+        if side == "resp" and t in ("setp_held", "delp_held", "ppop") and t != "ppop":
+            continue
+        if side == "req" and t == "ppop":
+            continue
+        if t == "assign" and isinstance(o[1], dict) and isinstance(o[1].get("cc"), dict) and not o[1]["cc"]:
+            continue
+        if t in ("setp", "setp_held") and isinstance(o[2], str) and not latin1(o[2]):
+            continue
+        return o[:3] if t in ("hset", "assign") and len(o) == 3 and t == "hset" else (o[:2] if t == "assign" else o)
+
+
+def corr_group4(ctx):
+    from webob import cachecontrol
+    rng = ctx.sub_rng("corr4")
+    texts = [t for t in total_texts("cache_control", 3, rng, ctx.scale(500, 8000)) if latin1(t) and len(t) < 9000]
+    rng.shuffle(texts)
+    texts = [t for t in SPECIAL["cache_control"] if latin1(t)] + [c[0] for c in CC_TEXTS] + texts[: ctx.scale(1200, 20000)]
+    cases = [(cstr(t), [[m.group(1), m.group(2) or m.group(3) or ""] for m in cachecontrol.token_re.finditer(t)],
+              {"fn": "token_re.finditer", "text": t}) for t in texts]
+    bad = ctx.corr("token_re", IMPORTS, "(fun s => VList (map (fun nv => VList [VStr (fst nv); VStr (snd nv)]) (tokens (S (length s)) s)))",
+                   cases, in_type="str")
+    for i in bad[:5]:
+        ctx.broken.append("correspondence token_re: scanner model and re disagree on %r" % cases[i][2]["text"][:100])
+    cases = [(cstr(t), [[k, bigfix(v)] for k, v in cachecontrol.CacheControl.parse(t).properties.items()],
+              {"fn": "CacheControl.parse", "text": t}) for t in texts]
+    bad = ctx.corr("cc_parse", IMPORTS, "(fun s => props_val (parse_cc s))", cases, in_type="str")
+    for i in bad[:5]:
+        disagreement(ctx, "cc_parse", cases[i][2], [{"o": "total", "side": "resp", "attr": "cache_control", "text": cases[i][2]["text"]}])
+    # serialize_cache_control
+    names = ["max-age", "no-cache", "private", "a", "B", "ab", "a-b", "a_b", "z", "public", "s-maxage"]
+    vals = [None, 0, 5, -3, 10 ** 40, "x", "a b", "a,b", 'q"r', "", "\xe9", "1.5", "A_b-c.d", "set-cookie", " "]
+    cases = []
+    for _ in range(ctx.scale(500, 6000)):
+        d = {}
+        for _ in range(rng.randrange(0, 5)):
+            d[rng.choice(names)] = rng.choice(vals)
+        cases.append((cprops(d), cachecontrol.serialize_cache_control(d), {"fn": "serialize_cache_control", "props": d}))
+    bad = ctx.corr("cc_serialize", IMPORTS, "(fun p => VStr (serialize_cc p))", cases, in_type="props")
+    for i in bad[:5]:
+        ctx.broken.append("correspondence cc_serialize: model and serialize_cache_control disagree on %r" % (cases[i][2]["props"],))
+    # the two bindings, over histories
+    n = ctx.scale(400, 6000)
+    for side, fn, ty in (("resp", "(fun c => run_resp_cc (match fst c with Some t => [(cc_name, t)] | None => [] end) (snd c))", "(option str * list cop)"),
+                         ("req", "(fun c => run_req_cc (fst c) (snd c))", "(option str * list qop)")):
+        cases = []
+        for j in range(n):
+            init = rng.choice([None, "max-age=1", "public,max-age=1 , x=\"y z\"", "garbage 1 2", "no-cache"])
+            if j % 7 == 0:
+                text, wf = rng.choice(CC_TEXTS)
+                ops = [["hset", text], cc_corr_op(rng, side), ["hset", text], cc_corr_op(rng, side)]
+            else:
+                ops = [cc_corr_op(rng, side) for _ in range(rng.randrange(1, 8))]
+            ops = json.loads(json.dumps(ops))
+            out = run_cc_history(side, init, ops)
+            cases.append((cpair(copt(None if init is None else cstr(init)), clist(ccop(side, o) for o in ops)), out,
+                          {"o": "cc", "side": side, "init": init, "ops": ops}))
+        bad = ctx.corr("cc-binding-" + side, IMPORTS, fn, cases, in_type=ty)
+        for i in bad[:5]:
+            disagreement(ctx, "cc-binding-" + side, cases[i][2], [cases[i][2]])
+
+
 def run(ctx):
+    ctx.build(["Props/C12.vo"])
     table_check(ctx)
+    source_cfg(ctx)
+    prepare_generators(ctx)
+    corr_group1(ctx)
+    corr_group2(ctx)
+    corr_group3(ctx)
+    corr_group4(ctx)
     oracle_sweep(ctx)
-    ctx.extra["rule"] = ("totality: every attribute x (hand-picked adversarial texts + every concatenation of <= 3-4 tokens of "
-                         "the field's adversarial alphabet + mutated/random longer texts), counted non-trivial when non-empty; "
-                         "round trip: every valid value generated (all (start, stop, length) <= bound, all year boundaries "
-                         "1970-9999 stepwise, random instants, naive/aware), each distinct (attribute, value) counted once")
+    ctx.extra["rule"] = ("correspondence: distinct generated inputs (adversarial texts / random attribute histories) per model "
+                         "function; oracle totality: every attribute x (hand-picked adversarial texts + every concatenation of "
+                         "<= 3-4 tokens of the field's adversarial alphabet + mutated/random longer texts), counted non-trivial "
+                         "when non-empty; oracle round trip: every valid value generated (all (start, stop, length) <= bound, "
+                         "year boundaries 1970-9999 stepwise, random instants, naive/aware, 4 process time zones), each "
+                         "(attribute, value) counted once; cache-control: every history of <= 2-3 ops of a 22-op universe x 3 "
+                         "initial headers + random histories")
     ctx.extra["exhaustive"] = False
+    ctx.assume += ["header and environ texts are str with code points < 256 in the Coq model (WSGI native strings); wider "
+                   "text is covered by the oracle only",
+                   "sys.get_int_max_str_digits() has its default value 4300"]
+    ctx.trusted += ["email.utils.parsedate_tz on arbitrary text is not modelled (section variable in the totality theorem); "
+                    "the canonical IMF-fixdate form is modelled and proved"]
 
 
 def replay(ctx, path):
